@@ -175,7 +175,25 @@ func heapRun(c *fw.Ctx, ops []hop, opt heapOpts) (div *heapDiv, st heapStats) {
 		}
 		seen := map[int]bool{}
 		var bad *heapDiv
+		nth := 0
 		q.Each(func(e Elem) bool {
+			// read-only calls from inside the loop body: Each lists in offset order
+			if len(ref) <= 64 {
+				if pe, ok := q.Peek(nth); !ok || pe != e || q.Len() != len(ref) {
+					bad = fail("inside Each, element %d is %v but Peek(%d)=(%v,%v), Len=%d", nth, e, nth, pe, ok, q.Len())
+					return false
+				}
+				if nth == len(ref)/2 {
+					q.Front()
+					m := 0
+					q.Each(func(Elem) bool { m++; return true })
+					if m != len(ref) {
+						bad = fail("an Each started inside Each yields %d of %d elements", m, len(ref))
+						return false
+					}
+				}
+			}
+			nth++
 			if x, ok := ref[e.Tag]; !ok || x != e {
 				bad = fail("Each yields %v which is not held (held: %d elements)", e, len(ref))
 				return false
